@@ -7,6 +7,7 @@ mod props;
 mod rng;
 mod sexp;
 mod world;
+mod fcheck;
 
 use common::*;
 
@@ -26,6 +27,18 @@ fn main() {
   }
   if args[1] == "c16probe" {
     props::c16::probe(&args[2]);
+    return;
+  }
+  if args[1] == "fcgen12" {
+    fcheck::dump_gen12(args[2].parse().unwrap(), args[3].parse().unwrap());
+    return;
+  }
+  if args[1] == "fcprobe" {
+    fcheck::probe();
+    return;
+  }
+  if args[1] == "fcdump" {
+    fcheck::dump(&args[2..]);
     return;
   }
   if args[1] == "c01dump" {
@@ -114,6 +127,8 @@ fn main() {
     "c16" => props::c16::run(&cfg),
     "c08" => props::c08::run(&cfg),
     "jsr" => props::jsr::run(&cfg),
+    "c09" => props::c09::run(&cfg),
+    "c12" => props::c12::run(&cfg),
     _ => {
       eprintln!("unknown property {}", prop);
       std::process::exit(2);
